@@ -71,7 +71,7 @@ def alphabet_k(world, h):
 def plan(tier):
     W = worlds.curated()
     if tier == "quick":
-        names = ["chain", "csum-mid", "csum-deep", "csum-two-b", "csum-toggle", "fan3", "always", "ifcreate", "dynamic", "default", "dovar", "fail", "diamond-csum", "autodir", "tolerant", "tolerant-csum", "linkdir"]
+        names = ["chain", "csum-mid", "csum-deep", "csum-two-b", "csum-toggle", "fan3", "always", "ifcreate", "dynamic", "default", "dovar", "fail", "diamond-csum", "autodir", "tolerant", "tolerant-csum", "linkdir", "shared-src"]
         # interrupted builds ("earlier partial builds"): at most one kill per history, worlds chosen for one mechanism each
         K = ["chain", "csum-mid", "dynamic", "chain-append"]
         return [(W[n], alphabet, 3, 2) for n in names if n not in K] + [(W[n], alphabet_k, 3, 2) for n in K]
